@@ -1,117 +1,102 @@
 /-
   C16 — Completion is sound, complete for prefixes, bounded and frequency-ranked.
 
-  Model: HL/Model/Completion.lean (internal/server/completion.go, the lookup side of
-  internal/analyzer/indexer.go, maxResults normalisation of settings.go).
+  Model: HL/Model/Completion.lean (internal/server/completion.go with the completion repairs, the
+  account list of internal/analyzer/indexer.go, maxResults normalisation of settings.go).
   Spec : HL/Spec/CompletionSpec.lean.
 
   All theorems hold for every lower-casing function `lower`, every symbol table, line, cursor,
-  trigger and configuration, and for EVERY ranking `ranked` that `sort.Slice` may return
-  (`IsRanking`: a sorted permutation of the filtered, scored candidates).  `rankExec_isRanking`
-  shows the executable ranking of the driver is one of them.
+  trigger and configuration.  `sound`, `prefix_complete`, `bounded`, `frequency_ranked` hold for
+  EVERY sorted permutation `ranked` of the filtered, scored candidates (`IsRanking`), so they do
+  not depend on how ties are ordered; `rankExec_isRanking` shows the executable ranking
+  (`sort.SliceStable`) is one of them, `limit_prefix_full` and `ranking_stable` are about that
+  ranking itself.
 
-  `fx = true` is the code with repo_patches/fix-completion-edit-range.diff; `fx = false` the code
-  as pinned.  Only `edit_replaces_fragment` depends on it.
+  The code before the repairs is `HL.Completion.Pinned` (HL/Model/CompletionPinned.lean); the
+  `pinned_*_counterexample` theorems record what it did on the witnesses of the findings.
 -/
 import HL.Lemmas.Completion
+import HL.Model.CompletionPinned
 namespace HL.Props.C16
 open HL.Text HL.Completion HL.CompletionSpec HL.Lemmas.Text
 
 /-- The executable pipeline of the driver is `finish` on one admissible ranking, so every theorem
     below applies to `complete`. -/
-theorem complete_is_finish (lower : Char → Char) (fx : Bool) (t : Table) (st : Settings) (line : Str)
+theorem complete_is_finish (lower : Char → Char) (t : Table) (st : Settings) (line : Str)
     (ch : Nat) (trig : Str) :
-    ∃ ranked, IsRanking (countsFor t (determineContext line ch trig)) (scoredFor lower fx t st line ch trig) ranked ∧
-      complete lower fx t st line ch trig = finish fx st line ch trig ranked :=
+    ∃ ranked, IsRanking (countsFor t (determineContext line ch trig)) (scoredFor lower t st line ch trig) ranked ∧
+      complete lower t st line ch trig = finish st line ch trig ranked :=
   ⟨_, rankExec_isRanking _ _, rfl⟩
 
 /-! ## sound -/
 
-/-- Unguarded form: every returned label is a name of the context's table and matches the query
-    — with fuzzy matching on, the query without its trailing colon. -/
-theorem sound_weak (lower : Char → Char) (fx : Bool) (t : Table) (st : Settings) (line : Str) (ch : Nat)
+/-- `sound`: every returned label is in the symbol table of its context and matches the query —
+    as a subsequence (letter case ignored) with fuzzy matching on, as a prefix with it off. -/
+theorem sound (lower : Char → Char) (t : Table) (st : Settings) (line : Str) (ch : Nat)
     (trig : Str) (ranked : List Scored)
-    (hr : IsRanking (countsFor t (determineContext line ch trig)) (scoredFor lower fx t st line ch trig) ranked)
-    (hj : judged (determineContext line ch trig) = true) (hidx : indexSubset t = true)
-    (s : Scored) (hs : s ∈ (finish fx st line ch trig ranked).items) :
-    s.label ∈ namesOf t (finish fx st line ch trig ranked).ctx ∧
-    matchesQ lower st.fuzzy
-      (if st.fuzzy then trimColon (finish fx st line ch trig ranked).query else (finish fx st line ch trig ranked).query)
-      s.label = true := by
+    (hr : IsRanking (countsFor t (determineContext line ch trig)) (scoredFor lower t st line ch trig) ranked)
+    (hj : judged (determineContext line ch trig) = true)
+    (s : Scored) (hs : s ∈ (finish st line ch trig ranked).items) :
+    s.label ∈ namesOf t (finish st line ch trig ranked).ctx ∧
+    matchesQ lower st.fuzzy (finish st line ch trig ranked).query s.label = true := by
   simp only [finish] at hs ⊢
   have h1 : s ∈ ranked := (truncate_sublist _ _).subset hs
-  have h2 : s ∈ scoredFor lower fx t st line ch trig := hr.1.mem_iff.1 h1
+  have h2 : s ∈ scoredFor lower t st line ch trig := hr.1.mem_iff.1 h1
   unfold scoredFor at h2
   simp only [] at h2
   obtain ⟨hl, hm⟩ := mem_filterAndScore _ _ _ _ _ h2
-  refine ⟨labelsFor_subset t _ line _ hj hidx _ hl, ?_⟩
-  generalize extractQuery fx (determineContext line ch trig) line (takeU16 line ch) = q at hm ⊢
+  refine ⟨labelsFor_subset lower t _ line _ hj _ hl, ?_⟩
+  generalize extractQuery (determineContext line ch trig) line (takeU16 line ch) = q at hm ⊢
   unfold matchesQ subseqCI prefixCI
   rcases hm with ⟨hq, _⟩ | ⟨_, hf, _, hp⟩ | ⟨_, hf, hpos⟩
   · subst hq
-    cases st.fuzzy <;> simp [trimColon, List.isSublist_iff_sublist]
+    cases st.fuzzy <;> simp [List.isSublist_iff_sublist]
   · simp only [hf, Bool.false_eq_true, if_false]
     exact List.isPrefixOf_iff_prefix.2 hp
   · simp only [hf, if_true]
-    exact List.isSublist_iff_sublist.2 (fuzzyItemScore_pos_weak lower q s.label hpos)
-
-/-- Guard of the known finding `segment-colon`, negated: fuzzy matching is off or the query does
-    not end in a colon. -/
-def noSegmentColon (fuzzy : Bool) (q : Str) : Bool := !fuzzy || q.getLast? != some ':'
-
-/-- `sound`, outside the guard of `segment-colon`: every returned label is in the symbol table
-    of its context and matches the query — as a subsequence (letter case ignored) with fuzzy
-    matching on, as a prefix with it off. -/
-theorem sound_partial (lower : Char → Char) (fx : Bool) (t : Table) (st : Settings) (line : Str) (ch : Nat)
-    (trig : Str) (ranked : List Scored)
-    (hr : IsRanking (countsFor t (determineContext line ch trig)) (scoredFor lower fx t st line ch trig) ranked)
-    (hj : judged (determineContext line ch trig) = true) (hidx : indexSubset t = true)
-    (hg : noSegmentColon st.fuzzy (finish fx st line ch trig ranked).query = true)
-    (s : Scored) (hs : s ∈ (finish fx st line ch trig ranked).items) :
-    s.label ∈ namesOf t (finish fx st line ch trig ranked).ctx ∧
-    matchesQ lower st.fuzzy (finish fx st line ch trig ranked).query s.label = true := by
-  have hw := sound_weak lower fx t st line ch trig ranked hr hj hidx s hs
-  refine ⟨hw.1, ?_⟩
-  have h2 := hw.2
-  unfold noSegmentColon at hg
-  cases hf : st.fuzzy
-  · simpa [hf] using h2
-  · simp only [hf, Bool.not_true, Bool.false_or, bne_iff_ne, ne_eq] at hg
-    simp only [hf, if_true] at h2
-    rwa [trimColon_eq _ hg] at h2
+    exact List.isSublist_iff_sublist.2 (fuzzyItemScore_pos lower q s.label hpos)
 
 /-- In the form of the executable oracle. -/
-theorem sound_partial_oracle (lower : Char → Char) (fx : Bool) (t : Table) (st : Settings) (line : Str) (ch : Nat)
+theorem sound_oracle (lower : Char → Char) (t : Table) (st : Settings) (line : Str) (ch : Nat)
     (trig : Str) (ranked : List Scored)
-    (hr : IsRanking (countsFor t (determineContext line ch trig)) (scoredFor lower fx t st line ch trig) ranked)
-    (hj : judged (determineContext line ch trig) = true) (hidx : indexSubset t = true)
-    (hg : noSegmentColon st.fuzzy (finish fx st line ch trig ranked).query = true) :
-    soundOK lower st.fuzzy t (finish fx st line ch trig ranked).ctx (finish fx st line ch trig ranked).query
-      ((finish fx st line ch trig ranked).items.map (·.label)) = true := by
+    (hr : IsRanking (countsFor t (determineContext line ch trig)) (scoredFor lower t st line ch trig) ranked)
+    (hj : judged (determineContext line ch trig) = true) :
+    soundOK lower st.fuzzy t (finish st line ch trig ranked).ctx (finish st line ch trig ranked).query
+      ((finish st line ch trig ranked).items.map (·.label)) = true := by
   unfold soundOK
   rw [List.all_eq_true]
   intro l hl
   obtain ⟨s, hs, rfl⟩ := List.mem_map.1 hl
-  have := sound_partial lower fx t st line ch trig ranked hr hj hidx hg s hs
+  have := sound lower t st line ch trig ranked hr hj s hs
   simp only [Bool.and_eq_true, List.contains_iff_mem]
   exact this
 
-/-- `segment-colon`: the query `exp:` returns `foo:expenses` (its segment `expenses` matches
-    `exp`), which does not contain `exp:` as a subsequence. -/
-theorem sound_counterexample :
-    (filterAndScore goLower ["foo:expenses".toList] "exp:".toList true).map (·.label) = ["foo:expenses".toList] ∧
-    subseqCI goLower "exp:".toList "foo:expenses".toList = false := by
+/-- `segment-colon` (repaired): before the repair the query `exp:` returned `foo:expenses` (its
+    segment `expenses` matches `exp`), which does not contain `exp:` as a subsequence; the
+    repaired code considers only segments followed by a colon and returns `expenses:food` alone. -/
+theorem pinned_segment_colon_counterexample :
+    let names := ["foo:expenses".toList, "expenses:food".toList]
+    (Pinned.filterAndScore goLower names "exp:".toList true).map (·.label) = names ∧
+    subseqCI goLower "exp:".toList "foo:expenses".toList = false ∧
+    (filterAndScore goLower names "exp:".toList true).map (·.label) = ["expenses:food".toList] := by
   decide +kernel
 
 /-- The same through the whole pipeline: a posting line `    exp:` with the cursor at its end. -/
-theorem segment_colon_counterexample :
+theorem pinned_segment_colon_pipeline_counterexample :
     let t : Table := { (default : Table) with accounts := ["foo:expenses".toList] }
-    let r := complete goLower true t ⟨50, true⟩ "    exp:".toList 8 []
+    let r := Pinned.complete goLower true t ⟨50, true⟩ "    exp:".toList 8 []
+    let r' := complete goLower t ⟨50, true⟩ "    exp:".toList 8 []
     r.ctx = .account ∧ r.query = "exp:".toList ∧ r.items.map (·.label) = ["foo:expenses".toList] ∧
-    matchesQ goLower true r.query "foo:expenses".toList = false := by
+    matchesQ goLower true r.query "foo:expenses".toList = false ∧
+    r'.ctx = .account ∧ r'.query = "exp:".toList ∧ r'.items = [] := by
   decide +kernel
 
-example : noSegmentColon true "exp".toList = true ∧ noSegmentColon false "exp:".toList = true := by decide
+/-- Non-vacuity of `sound`: a query ending in a colon with fuzzy matching on, non-empty answer. -/
+example :
+    let t : Table := { (default : Table) with accounts := ["foo:expenses".toList, "Expenses:food".toList] }
+    let r := complete goLower t ⟨50, true⟩ "  exp:".toList 6 []
+    judged r.ctx = true ∧ r.query = "exp:".toList ∧ r.items.map (·.label) = ["Expenses:food".toList] := by
+  decide +kernel
 
 /-! ## prefix_complete -/
 
@@ -121,159 +106,173 @@ theorem prefix_scores_positive (lower : Char → Char) (q n : Str) (h : prefixCI
   ⟨fuzzyItemScore_of_prefix lower q n (List.isPrefixOf_iff_prefix.1 h),
    fuzzyScore_pos_of_prefix lower n q (List.isPrefixOf_iff_prefix.1 h)⟩
 
-/-- The by-prefix index returns a superset of the names with that prefix, or the lookup falls
-    back to all names. -/
-theorem index_superset_or_all (t : Table) (key n : Str) (hn : n ∈ t.accounts)
-    (hidx : indexSuperset t = true) (hk : key <+: n) : n ∈ accountsForPrefix t key :=
-  accountsForPrefix_complete t key n hn hidx (Or.inr (Or.inr hk))
+/-- The narrowing of the account candidates keeps every account that starts with the typed
+    fragment, letter case ignored (the typed parent is a prefix of the fragment). -/
+theorem narrowing_keeps_prefixed (lower : Char → Char) (t : Table) (line : Str) (col : Nat) (n : Str)
+    (hn : n ∈ t.accounts) (hp : prefixCI lower (extractQuery .account line col) n = true) :
+    n ∈ accountsForPrefix lower t (extractAccountPrefix line col) :=
+  accountsForPrefix_complete lower t _ n hn
+    (((extractAccountPrefix_prefix line col).map lower).trans (List.isPrefixOf_iff_prefix.1 hp))
 
-/-- Guard of the known finding `byprefix-narrowing`, negated: outside the account context, or the
-    extracted account prefix is empty / not a key of the index / a prefix of the name. -/
-def notNarrowed (t : Table) (c : Ctx) (line : Str) (col : Nat) (n : Str) : Bool :=
-  c != .account ||
-  (let key := extractAccountPrefix line col
-   key.isEmpty || (t.byPrefix.lookup key).isNone || key.isPrefixOf n)
-
-/-- `prefix_complete`, outside the guard of `byprefix-narrowing`: every name of the context's
-    table that has the query as a case-insensitive prefix is in the untruncated list. -/
-theorem prefix_complete_partial (lower : Char → Char) (fx : Bool) (t : Table) (st : Settings) (line : Str)
+/-- `prefix_complete`: every name of the context's table that has the query as a
+    case-insensitive prefix is in the untruncated list. -/
+theorem prefix_complete (lower : Char → Char) (t : Table) (st : Settings) (line : Str)
     (ch : Nat) (trig : Str) (ranked : List Scored)
-    (hr : IsRanking (countsFor t (determineContext line ch trig)) (scoredFor lower fx t st line ch trig) ranked)
+    (hr : IsRanking (countsFor t (determineContext line ch trig)) (scoredFor lower t st line ch trig) ranked)
     (hj : judged (determineContext line ch trig) = true)
-    (hidx : determineContext line ch trig = .account → indexSuperset t = true)
     (n : Str) (hn : n ∈ namesOf t (determineContext line ch trig))
-    (hp : prefixCI lower (finish fx st line ch trig ranked).query n = true)
-    (hg : notNarrowed t (determineContext line ch trig) line (takeU16 line ch) n = true) :
+    (hp : prefixCI lower (finish st line ch trig ranked).query n = true) :
     n ∈ ranked.map (·.label) := by
-  have hlab : n ∈ labelsFor t (determineContext line ch trig) line (takeU16 line ch) := by
-    generalize determineContext line ch trig = c at hj hn hg hidx
-    cases c <;> simp [judged] at hj <;> simp only [labelsFor, namesOf] at hn ⊢ <;> try exact hn
-    refine accountsForPrefix_complete t _ n hn (hidx rfl) ?_
-    simp only [notNarrowed, bne_self_eq_false, Bool.false_or, Bool.or_eq_true, List.isEmpty_iff,
-      Option.isNone_iff_eq_none] at hg
-    rcases hg with (h | h) | h
-    · exact Or.inl h
-    · exact Or.inr (Or.inl h)
-    · exact Or.inr (Or.inr (List.isPrefixOf_iff_prefix.1 h))
-  have hsc := filterAndScore_complete lower _ (extractQuery fx (determineContext line ch trig) line (takeU16 line ch))
-    st.fuzzy n hlab (List.isPrefixOf_iff_prefix.1 hp)
+  have hp' := List.isPrefixOf_iff_prefix.1 hp
+  have hlab := labelsFor_complete lower t _ line (takeU16 line ch) hj n hn hp'
+  have hsc := filterAndScore_complete lower _ (extractQuery (determineContext line ch trig) line (takeU16 line ch))
+    st.fuzzy n hlab hp'
   exact (hr.1.map _).mem_iff.2 hsc
 
 /-- ... and in the returned list when the limit allows. -/
-theorem prefix_complete_within_limit_partial (lower : Char → Char) (fx : Bool) (t : Table) (st : Settings)
+theorem prefix_complete_within_limit (lower : Char → Char) (t : Table) (st : Settings)
     (line : Str) (ch : Nat) (trig : Str) (ranked : List Scored)
-    (hr : IsRanking (countsFor t (determineContext line ch trig)) (scoredFor lower fx t st line ch trig) ranked)
+    (hr : IsRanking (countsFor t (determineContext line ch trig)) (scoredFor lower t st line ch trig) ranked)
     (hj : judged (determineContext line ch trig) = true)
-    (hidx : determineContext line ch trig = .account → indexSuperset t = true)
     (hlim : ranked.length ≤ normMax st.maxRaw)
     (n : Str) (hn : n ∈ namesOf t (determineContext line ch trig))
-    (hp : prefixCI lower (finish fx st line ch trig ranked).query n = true)
-    (hg : notNarrowed t (determineContext line ch trig) line (takeU16 line ch) n = true) :
-    n ∈ (finish fx st line ch trig ranked).items.map (·.label) := by
-  have := prefix_complete_partial lower fx t st line ch trig ranked hr hj hidx n hn hp hg
+    (hp : prefixCI lower (finish st line ch trig ranked).query n = true) :
+    n ∈ (finish st line ch trig ranked).items.map (·.label) := by
+  have := prefix_complete lower t st line ch trig ranked hr hj n hn hp
   simp only [finish]
   rw [truncate_eq_take _ _ (normMax_pos _), List.take_of_length_le hlim]
   exact this
 
-/-- In the form of the executable oracle: when no name of the context lies inside the guard of
-    `byprefix-narrowing`, `completeOK` accepts the answer. -/
-theorem prefix_complete_oracle_partial (lower : Char → Char) (fx : Bool) (t : Table) (st : Settings)
+/-- In the form of the executable oracle: `completeOK` accepts every answer. -/
+theorem prefix_complete_oracle (lower : Char → Char) (t : Table) (st : Settings)
     (line : Str) (ch : Nat) (trig : Str) (ranked : List Scored)
-    (hr : IsRanking (countsFor t (determineContext line ch trig)) (scoredFor lower fx t st line ch trig) ranked)
-    (hj : judged (determineContext line ch trig) = true)
-    (hidx : determineContext line ch trig = .account → indexSuperset t = true)
-    (hg : ∀ n ∈ namesOf t (determineContext line ch trig),
-      notNarrowed t (determineContext line ch trig) line (takeU16 line ch) n = true) :
-    completeOK lower t (finish fx st line ch trig ranked).ctx (finish fx st line ch trig ranked).query
-      ((finish fx st line ch trig ranked).items.map (·.label)) (normMax st.maxRaw) = true := by
+    (hr : IsRanking (countsFor t (determineContext line ch trig)) (scoredFor lower t st line ch trig) ranked)
+    (hj : judged (determineContext line ch trig) = true) :
+    completeOK lower t (finish st line ch trig ranked).ctx (finish st line ch trig ranked).query
+      ((finish st line ch trig ranked).items.map (·.label)) (normMax st.maxRaw) = true := by
   unfold completeOK
-  by_cases hlen : (finish fx st line ch trig ranked).items.length ≥ normMax st.maxRaw
+  by_cases hlen : (finish st line ch trig ranked).items.length ≥ normMax st.maxRaw
   · simp only [List.length_map, ge_iff_le, Bool.or_eq_true, decide_eq_true_eq]
     exact Or.inl hlen
   · simp only [Bool.or_eq_true]
     refine Or.inr ?_
     rw [List.all_eq_true]
     intro n hn
-    by_cases hp : prefixCI lower (finish fx st line ch trig ranked).query n = true
+    by_cases hp : prefixCI lower (finish st line ch trig ranked).query n = true
     · have hlim : ranked.length ≤ normMax st.maxRaw := by
         simp only [finish, truncate_eq_take _ _ (normMax_pos _), List.length_take] at hlen
         omega
-      have := prefix_complete_within_limit_partial lower fx t st line ch trig ranked hr hj hidx hlim n hn hp
-        (hg n hn)
+      have := prefix_complete_within_limit lower t st line ch trig ranked hr hj hlim n hn hp
       simp only [Bool.or_eq_true, List.contains_iff_mem]
       exact Or.inr this
     · simp only [Bool.or_eq_true, Bool.not_eq_true']
       exact Or.inl (by simpa using hp)
 
-/-- Payee, commodity and tag contexts have no index: complete without a guard. -/
-theorem prefix_complete_names (lower : Char → Char) (fx : Bool) (t : Table) (st : Settings) (line : Str)
-    (ch : Nat) (trig : Str) (ranked : List Scored)
-    (hr : IsRanking (countsFor t (determineContext line ch trig)) (scoredFor lower fx t st line ch trig) ranked)
-    (hc : determineContext line ch trig = .payee ∨ determineContext line ch trig = .commodity ∨
-          determineContext line ch trig = .tagName)
-    (n : Str) (hn : n ∈ namesOf t (determineContext line ch trig))
-    (hp : prefixCI lower (finish fx st line ch trig ranked).query n = true) :
-    n ∈ ranked.map (·.label) := by
-  refine prefix_complete_partial lower fx t st line ch trig ranked hr ?_ ?_ n hn hp ?_
-  · rcases hc with h | h | h <;> rw [h] <;> rfl
-  · intro h; rcases hc with h' | h' | h' <;> rw [h] at h' <;> cases h'
-  · rcases hc with h | h | h <;> simp [notNarrowed, h]
-
-/-- `byprefix-narrowing`: `expenses:food` and `Expenses:Fun` are two accounts; typing
-    `expenses:f` hits the index key `expenses:` and `Expenses:Fun`, which starts with the
-    fragment when letter case is ignored, is not offered (limit 50, one item returned). -/
-theorem prefix_complete_counterexample :
+/-- `byprefix-narrowing` (repaired): `expenses:food` and `Expenses:Fun` are two accounts; before
+    the repair typing `expenses:f` hit the case-sensitive index key `expenses:` and `Expenses:Fun`,
+    which starts with the fragment when letter case is ignored, was not offered; likewise
+    `assets:my bank:` was looked up as `bank:`.  The repaired code offers them. -/
+theorem pinned_byprefix_narrowing_counterexample :
     let t : Table := { (default : Table) with
       accounts := ["expenses:food".toList, "Expenses:Fun".toList],
       byPrefix := [("expenses:".toList, ["expenses:food".toList]), ("Expenses:".toList, ["Expenses:Fun".toList])] }
-    let r := complete goLower true t ⟨50, true⟩ "    expenses:f".toList 14 []
+    let r := Pinned.complete goLower true t ⟨50, true⟩ "    expenses:f".toList 14 []
+    let r' := complete goLower t ⟨50, true⟩ "    expenses:f".toList 14 []
     indexSuperset t = true ∧ indexSubset t = true ∧ r.ctx = .account ∧ r.query = "expenses:f".toList ∧
     prefixCI goLower r.query "Expenses:Fun".toList = true ∧
     r.items.map (·.label) = ["expenses:food".toList] ∧
-    notNarrowed t .account "    expenses:f".toList 14 "Expenses:Fun".toList = false := by
+    r'.query = "expenses:f".toList ∧
+    r'.items.map (·.label) = ["expenses:food".toList, "Expenses:Fun".toList] := by
   decide +kernel
 
-example : notNarrowed default .account "    exp".toList 7 "expenses:food".toList = true := by decide
+theorem pinned_byprefix_blank_counterexample :
+    let t : Table := { (default : Table) with
+      accounts := ["assets:my bank:foo".toList, "bank:x".toList],
+      byPrefix := [("assets:".toList, ["assets:my bank:foo".toList]), ("assets:my bank:".toList, ["assets:my bank:foo".toList]),
+                   ("bank:".toList, ["bank:x".toList])] }
+    let line := "    assets:my bank:".toList
+    Pinned.extractAccountPrefix line 19 = "bank:".toList ∧
+    (Pinned.complete goLower true t ⟨50, true⟩ line 19 []).items = [] ∧
+    extractAccountPrefix line 19 = "assets:my bank:".toList ∧
+    (complete goLower t ⟨50, true⟩ line 19 []).items.map (·.label) = ["assets:my bank:foo".toList] := by
+  decide +kernel
 
 /-! ## bounded, limit_prefix -/
 
 /-- At most the configured maximum is returned (the setting is normalised to a positive value). -/
-theorem bounded (fx : Bool) (st : Settings) (line : Str) (ch : Nat) (trig : Str) (ranked : List Scored) :
-    (finish fx st line ch trig ranked).items.length ≤ normMax st.maxRaw ∧ 0 < normMax st.maxRaw :=
+theorem bounded (st : Settings) (line : Str) (ch : Nat) (trig : Str) (ranked : List Scored) :
+    (finish st line ch trig ranked).items.length ≤ normMax st.maxRaw ∧ 0 < normMax st.maxRaw :=
   ⟨truncate_length_le _ _ (normMax_pos _), normMax_pos _⟩
 
 /-- A smaller maximum returns a prefix of the list returned for a larger one, given the same
     ranked list. -/
-theorem limit_prefix (fx : Bool) (f : Bool) (m₁ m₂ : Int) (line : Str) (ch : Nat) (trig : Str)
+theorem limit_prefix (f : Bool) (m₁ m₂ : Int) (line : Str) (ch : Nat) (trig : Str)
     (ranked : List Scored) (h : normMax m₁ ≤ normMax m₂) :
-    (finish fx ⟨m₁, f⟩ line ch trig ranked).items =
-      ((finish fx ⟨m₂, f⟩ line ch trig ranked).items).take (normMax m₁) := by
+    (finish ⟨m₁, f⟩ line ch trig ranked).items =
+      ((finish ⟨m₂, f⟩ line ch trig ranked).items).take (normMax m₁) := by
   simp only [finish]
   rw [truncate_eq_take _ _ (normMax_pos _), truncate_eq_take _ _ (normMax_pos _), List.take_take,
     Nat.min_eq_left h]
 
 /-- The candidates do not depend on the limit. -/
-theorem scored_independent_of_limit (lower : Char → Char) (fx : Bool) (t : Table) (f : Bool) (m₁ m₂ : Int)
+theorem scored_independent_of_limit (lower : Char → Char) (t : Table) (f : Bool) (m₁ m₂ : Int)
     (line : Str) (ch : Nat) (trig : Str) :
-    scoredFor lower fx t ⟨m₁, f⟩ line ch trig = scoredFor lower fx t ⟨m₂, f⟩ line ch trig := rfl
+    scoredFor lower t ⟨m₁, f⟩ line ch trig = scoredFor lower t ⟨m₂, f⟩ line ch trig := rfl
 
-/-- `limit-prefix-tie-order`: two requests may rank tied names differently (the analyzer visits
-    included files in map order, `sort.Slice` is unstable), and then the shorter answer is not a
-    prefix of the longer one.  Both lists below are rankings of the same candidates. -/
-theorem limit_prefix_tie_counterexample :
+/-- `limit_prefix` in full, for two separate requests on the same state: the answer under the
+    smaller maximum is a prefix of the answer under the larger one (labels, not only keys).  The
+    ranking is a function of the candidates (`sort.SliceStable`), so nothing is assumed about ties. -/
+theorem limit_prefix_full (lower : Char → Char) (t : Table) (f : Bool) (m₁ m₂ : Int) (line : Str) (ch : Nat)
+    (trig : Str) (h : normMax m₁ ≤ normMax m₂) :
+    (complete lower t ⟨m₁, f⟩ line ch trig).items =
+      ((complete lower t ⟨m₂, f⟩ line ch trig).items).take (normMax m₁) := by
+  unfold complete
+  simp only [scored_independent_of_limit lower t f m₁ m₂]
+  exact limit_prefix f m₁ m₂ line ch trig _ h
+
+/-- In the form of the executable oracle. -/
+theorem limit_prefix_oracle (lower : Char → Char) (t : Table) (f : Bool) (m₁ m₂ : Int) (line : Str) (ch : Nat)
+    (trig : Str) (h : normMax m₁ ≤ normMax m₂) :
+    limitPrefixOK (normMax m₁) ((complete lower t ⟨m₁, f⟩ line ch trig).items.map (·.label))
+      ((complete lower t ⟨m₂, f⟩ line ch trig).items.map (·.label)) = true := by
+  unfold limitPrefixOK
+  rw [limit_prefix_full lower t f m₁ m₂ line ch trig h, List.map_take]
+  exact beq_self_eq_true _
+
+/-- The ranking of `complete` is the stable one: it is sorted, and of two candidates the earlier
+    one stays first unless the later one ranks strictly higher (Go: `sort.SliceStable`). -/
+theorem ranking_stable (counts : Option (List (Str × Nat))) (scored : List Scored) :
+    IsRanking counts scored (rankExec counts scored) ∧
+    ∀ a b, [a, b].Sublist scored → less counts b a = false → [a, b].Sublist (rankExec counts scored) :=
+  ⟨rankExec_isRanking counts scored, fun a b => rankExec_stable counts scored a b⟩
+
+/-- ... and that determines the ranking: any sorted permutation of distinct candidates that
+    keeps the input order in this sense IS `rankExec`'s (a stable sort is a function, so modelling
+    `sort.SliceStable` by one particular stable sort loses nothing). -/
+theorem ranking_unique (counts : Option (List (Str × Nat))) (scored r : List Scored)
+    (hnd : scored.Nodup) (hr : IsRanking counts scored r)
+    (hst : ∀ a b, [a, b].Sublist scored → less counts b a = false → [a, b].Sublist r) :
+    r = rankExec counts scored :=
+  stable_ranking_unique counts scored r hnd hr hst
+
+/-- `limit-prefix-tie-order` (repaired by making the sort stable and the analyzer's order
+    deterministic): with `sort.Slice` any sorted permutation was possible, two requests could rank
+    tied names differently, and then the shorter answer is not a prefix of the longer one.  Both
+    lists below are sorted permutations of the same candidates. -/
+theorem pinned_limit_prefix_tie_counterexample :
     let scored : List Scored := [⟨"a".toList, 1000⟩, ⟨"b".toList, 1000⟩]
     let r₁ : List Scored := [⟨"a".toList, 1000⟩, ⟨"b".toList, 1000⟩]
     let r₂ : List Scored := [⟨"b".toList, 1000⟩, ⟨"a".toList, 1000⟩]
     IsRanking none scored r₁ ∧ IsRanking none scored r₂ ∧
-    (finish true ⟨1, true⟩ [] 0 [] r₁).items ≠ ((finish true ⟨2, true⟩ [] 0 [] r₂).items).take 1 := by
-  refine ⟨⟨List.Perm.refl _, by decide⟩, ⟨List.Perm.swap _ _ _, by decide⟩, by decide⟩
+    (finish ⟨1, true⟩ [] 0 [] r₁).items ≠ ((finish ⟨2, true⟩ [] 0 [] r₂).items).take 1 ∧
+    rankExec none scored = r₁ := by
+  refine ⟨⟨List.Perm.refl _, by decide⟩, ⟨List.Perm.swap _ _ _, by decide⟩, by decide, by decide⟩
 
 /-- The sort key of an item. -/
 def keyOf (counts : Option (List (Str × Nat))) (s : Scored) : Nat × Nat := (s.score, countOf counts s.label)
 
-/-- Whatever `sort.Slice` does inside a tie class, the sequence of keys (score, count) is the
-    same for every ranking of the same candidates.  (This is what the correspondence check
-    compares position-wise; labels are compared as multisets per tie class.) -/
+/-- Whatever a sort does inside a tie class, the sequence of keys (score, count) is the
+    same for every ranking of the same candidates. -/
 theorem ranking_keys_unique (counts : Option (List (Str × Nat))) (scored r₁ r₂ : List Scored)
     (h₁ : IsRanking counts scored r₁) (h₂ : IsRanking counts scored r₂) :
     r₁.map (keyOf counts) = r₂.map (keyOf counts) := by
@@ -294,14 +293,12 @@ theorem ranking_keys_unique (counts : Option (List (Str × Nat))) (scored r₁ r
   simp only [Prod.mk.injEq]
   omega
 
-/-- `limit_prefix` for two independent requests: the keys of the shorter answer are a prefix of
-    the keys of the longer one (outside `limit-prefix-tie-order`'s guard — a tie class cut or
-    ordered differently — the labels agree as well, see `limit_prefix`). -/
-theorem limit_prefix_keys_partial (counts : Option (List (Str × Nat))) (fx f : Bool) (m₁ m₂ : Int)
+/-- `limit_prefix` on keys for ANY two sorted permutations (holds even for an unstable sort). -/
+theorem limit_prefix_keys_any_sort (counts : Option (List (Str × Nat))) (f : Bool) (m₁ m₂ : Int)
     (line : Str) (ch : Nat) (trig : Str) (scored r₁ r₂ : List Scored)
     (h₁ : IsRanking counts scored r₁) (h₂ : IsRanking counts scored r₂) (h : normMax m₁ ≤ normMax m₂) :
-    (finish fx ⟨m₁, f⟩ line ch trig r₁).items.map (keyOf counts) =
-      ((finish fx ⟨m₂, f⟩ line ch trig r₂).items.map (keyOf counts)).take (normMax m₁) := by
+    (finish ⟨m₁, f⟩ line ch trig r₁).items.map (keyOf counts) =
+      ((finish ⟨m₂, f⟩ line ch trig r₂).items.map (keyOf counts)).take (normMax m₁) := by
   simp only [finish]
   rw [truncate_eq_take _ _ (normMax_pos _), truncate_eq_take _ _ (normMax_pos _), List.map_take,
     List.map_take, List.take_take, Nat.min_eq_left h, ranking_keys_unique counts scored r₁ r₂ h₁ h₂]
@@ -309,16 +306,16 @@ theorem limit_prefix_keys_partial (counts : Option (List (Str × Nat))) (fx f : 
 /-! ## frequency_ranked -/
 
 /-- With nothing typed, usage counts do not increase along the result. -/
-theorem frequency_ranked (lower : Char → Char) (fx : Bool) (t : Table) (st : Settings) (line : Str) (ch : Nat)
+theorem frequency_ranked (lower : Char → Char) (t : Table) (st : Settings) (line : Str) (ch : Nat)
     (trig : Str) (ranked : List Scored)
-    (hr : IsRanking (countsFor t (determineContext line ch trig)) (scoredFor lower fx t st line ch trig) ranked)
-    (hq : (finish fx st line ch trig ranked).query = []) :
-    ((finish fx st line ch trig ranked).items.map fun s =>
+    (hr : IsRanking (countsFor t (determineContext line ch trig)) (scoredFor lower t st line ch trig) ranked)
+    (hq : (finish st line ch trig ranked).query = []) :
+    ((finish st line ch trig ranked).items.map fun s =>
       countOf (countsFor t (determineContext line ch trig)) s.label).Pairwise (· ≥ ·) := by
   simp only [finish] at hq ⊢
   have hscore : ∀ s ∈ ranked, s.score = fuzzyScoreEmptyPattern := by
     intro s hs
-    have h2 : s ∈ scoredFor lower fx t st line ch trig := hr.1.mem_iff.1 hs
+    have h2 : s ∈ scoredFor lower t st line ch trig := hr.1.mem_iff.1 hs
     unfold scoredFor at h2
     simp only [hq] at h2
     unfold filterAndScore at h2
@@ -337,33 +334,33 @@ theorem frequency_ranked (lower : Char → Char) (fx : Bool) (t : Table) (st : S
   omega
 
 /-- In the form of the executable oracle. -/
-theorem frequency_ranked_oracle (lower : Char → Char) (fx : Bool) (t : Table) (st : Settings) (line : Str)
+theorem frequency_ranked_oracle (lower : Char → Char) (t : Table) (st : Settings) (line : Str)
     (ch : Nat) (trig : Str) (ranked : List Scored)
-    (hr : IsRanking (countsFor t (determineContext line ch trig)) (scoredFor lower fx t st line ch trig) ranked)
+    (hr : IsRanking (countsFor t (determineContext line ch trig)) (scoredFor lower t st line ch trig) ranked)
     (hj : judged (determineContext line ch trig) = true) :
-    rankedOK t (finish fx st line ch trig ranked).ctx (finish fx st line ch trig ranked).query
-      ((finish fx st line ch trig ranked).items.map (·.label)) = true := by
+    rankedOK t (finish st line ch trig ranked).ctx (finish st line ch trig ranked).query
+      ((finish st line ch trig ranked).items.map (·.label)) = true := by
   unfold rankedOK
-  cases hq : (finish fx st line ch trig ranked).query with
+  cases hq : (finish st line ch trig ranked).query with
   | cons _ _ => rfl
   | nil =>
     simp only [List.isEmpty_nil, Bool.not_true, Bool.false_or]
     apply nonIncreasing_of_pairwise
-    have := frequency_ranked lower fx t st line ch trig ranked hr hq
+    have := frequency_ranked lower t st line ch trig ranked hr hq
     rw [List.map_map]
-    have hfun : (usage t (finish fx st line ch trig ranked).ctx ∘ fun s : Scored => s.label) =
+    have hfun : (usage t (finish st line ch trig ranked).ctx ∘ fun s : Scored => s.label) =
         fun s => countOf (countsFor t (determineContext line ch trig)) s.label := by
       funext s; exact usage_eq_countOf t _ hj s.label
     rw [hfun]; exact this
 
 /-! ## edit_replaces_fragment -/
 
-/-- With the repaired code, in the account, payee and commodity contexts the edit range is
-    `[s, cursor]` with `s ≤ cursor`, and the text it covers is exactly the query. -/
+/-- In the account, payee, commodity and tag-name contexts the edit range is `[s, cursor]` with
+    `s ≤ cursor`, and the text it covers is exactly the query. -/
 theorem edit_replaces_fragment (c : Ctx) (line : Str) (ch : Nat) (hv : validCursor line ch = true)
-    (hc : c = .account ∨ c = .payee ∨ c = .commodity) :
-    ∃ a, editRange true c line ch = some (a, ch) ∧ a ≤ ch ∧
-      fragOf line a ch = extractQuery true c line (takeU16 line ch) := by
+    (hc : c = .account ∨ c = .payee ∨ c = .commodity ∨ c = .tagName) :
+    ∃ a, editRange c line ch = some (a, ch) ∧ a ≤ ch ∧
+      fragOf line a ch = extractQuery c line (takeU16 line ch) := by
   have hcol := takeU16_le line ch
   obtain ⟨s, hs, hle, hq⟩ := editStart_query c line (takeU16 line ch) hcol hc
   simp only [validCursor, Bool.and_eq_true, decide_eq_true_eq, beq_iff_eq] at hv
@@ -375,135 +372,298 @@ theorem edit_replaces_fragment (c : Ctx) (line : Str) (ch : Nat) (hv : validCurs
     rw [takeU16_u16len_take line s (by omega)]
     exact hq
 
-/-- The same for the answer of `Completion`. -/
+/-- The same for the answer of `Completion`, in every judged context. -/
 theorem edit_replaces_fragment_answer (st : Settings) (line : Str) (ch : Nat) (trig : Str) (ranked : List Scored)
-    (hv : validCursor line ch = true)
-    (hc : determineContext line ch trig = .account ∨ determineContext line ch trig = .payee ∨
-          determineContext line ch trig = .commodity) :
-    ∃ a, (finish true st line ch trig ranked).range = some (a, ch) ∧ editOK ch (a, ch) = true ∧
-      fragOf line a ch = (finish true st line ch trig ranked).query := by
+    (hv : validCursor line ch = true) (hj : judged (determineContext line ch trig) = true) :
+    ∃ a, (finish st line ch trig ranked).range = some (a, ch) ∧ editOK ch (a, ch) = true ∧
+      fragOf line a ch = (finish st line ch trig ranked).query := by
+  have hc : determineContext line ch trig = .account ∨ determineContext line ch trig = .payee ∨
+      determineContext line ch trig = .commodity ∨ determineContext line ch trig = .tagName := by
+    cases h : determineContext line ch trig <;> simp [judged, h] at hj ⊢
   obtain ⟨a, h1, h2, h3⟩ := edit_replaces_fragment _ line ch hv hc
   exact ⟨a, h1, by simp [editOK, h2], h3⟩
 
-/-- Tag contexts carry no edit range and an empty query (see `tag_fragment_ignored_counterexample`). -/
-theorem tag_context_no_range (fx : Bool) (line : Str) (ch : Nat) :
-    editRange fx .tagName line ch = none ∧ extractQuery fx .tagName line (takeU16 line ch) = [] :=
-  ⟨rfl, rfl⟩
-
-/-- `range-query-mismatch` (code as pinned, `fx = false`), three shapes:
+/-- `range-query-mismatch` (repaired earlier; code as pinned, `fx = false`), three shapes:
     * blanks after the amount: `    a:b  1    USD`, cursor 11 — commodity context, range `[14, 11]`;
     * cursor inside a directive keyword: `account foo`, cursor 3 — range `[8, 3]`;
     * status mark on a header line: `2024-01-01 * sho` — the range covers `sho`, the query is `* sho`. -/
-theorem edit_range_counterexample :
-    (determineContext "    a:b  1    USD".toList 11 [] = .commodity ∧
-      editRange false .commodity "    a:b  1    USD".toList 11 = some (14, 11)) ∧
-    (determineContext "account foo".toList 3 [] = .account ∧
-      editRange false .account "account foo".toList 3 = some (8, 3)) ∧
-    (determineContext "2024-01-01 * sho".toList 16 [] = .payee ∧
-      editRange false .payee "2024-01-01 * sho".toList 16 = some (13, 16) ∧
-      extractQuery false .payee "2024-01-01 * sho".toList 16 = "* sho".toList) := by
+theorem pinned_edit_range_counterexample :
+    (Pinned.determineContext "    a:b  1    USD".toList 11 [] = .commodity ∧
+      Pinned.editRange false .commodity "    a:b  1    USD".toList 11 = some (14, 11)) ∧
+    (Pinned.determineContext "account foo".toList 3 [] = .account ∧
+      Pinned.editRange false .account "account foo".toList 3 = some (8, 3)) ∧
+    (Pinned.determineContext "2024-01-01 * sho".toList 16 [] = .payee ∧
+      Pinned.editRange false .payee "2024-01-01 * sho".toList 16 = some (13, 16) ∧
+      Pinned.extractQuery false .payee "2024-01-01 * sho".toList 16 = "* sho".toList) := by
   decide +kernel
 
 /-- The repaired code on the same inputs. -/
 example :
-    editRange true .commodity "    a:b  1    USD".toList 11 = some (11, 11) ∧
-    editRange true .account "account foo".toList 3 = some (0, 3) ∧
-    extractQuery true .payee "2024-01-01 * sho".toList 16 = "sho".toList := by
+    editRange .commodity "    a:b  1    USD".toList 11 = some (11, 11) ∧
+    editRange .account "account foo".toList 3 = some (0, 3) ∧
+    extractQuery .payee "2024-01-01 * sho".toList 16 = "sho".toList := by
   decide +kernel
 
-/-! ## Where the server's fragment is not the name being typed -/
+/-! ## The fragment is the name being typed: marks, brackets and codes are not part of it -/
 
-/-- On a posting line (indent, then text without a leading blank) the account query is everything
-    between the indent and the cursor, and the edit range starts right after the indent. -/
-theorem posting_fragment_partial (fx : Bool) (ind frag rest : Str) (hi : ind ≠ [])
-    (hind : ∀ c ∈ ind, isBlankTab c = true) (hfrag : ∀ c ∈ frag.head?, isBlankTab c = false) :
-    extractQuery fx .account (ind ++ frag ++ rest) (ind.length + frag.length) = frag ∧
-    editStart fx .account (ind ++ frag ++ rest) (ind.length + frag.length) = some ind.length := by
-  have htake : (ind ++ frag ++ rest).take (ind.length + frag.length) = ind ++ frag := by
+/-- On a posting line the account fragment never starts with a blank, a status mark or an opening
+    bracket. -/
+theorem account_fragment_excludes_marks (line : Str) (col : Nat)
+    (h1 : hasPrefix (line.take col) directiveAccount = false)
+    (h2 : hasPrefix (line.take col) directiveApplyAccount = false) :
+    ∀ c ∈ (extractQuery .account line col).head?, isAccountSkip c = false := by
+  intro c hc
+  simp only [extractQuery, accountQueryStart, h1, h2, Bool.false_eq_true, if_false, trimLeftP] at hc
+  rw [drop_sub_dropWhile] at hc
+  have := List.head?_dropWhile_not isAccountSkip (line.take col)
+  rw [Option.mem_def.1 hc] at this
+  simpa using this
+
+/-- Posting line, constructively: after an indent followed by any status marks / opening brackets
+    (`pre`, non-empty, e.g. `"    "`, `"  * "`, `"\t("`, `" ! ["`), the account query is the text
+    typed behind them and the edit range starts right there. -/
+theorem posting_fragment (pre frag rest : Str) (hi : pre ≠ [])
+    (hpre : ∀ c ∈ pre, isAccountSkip c = true) (hfrag : ∀ c ∈ frag.head?, isAccountSkip c = false) :
+    extractQuery .account (pre ++ frag ++ rest) (pre.length + frag.length) = frag ∧
+    editStart .account (pre ++ frag ++ rest) (pre.length + frag.length) = some pre.length := by
+  have htake : (pre ++ frag ++ rest).take (pre.length + frag.length) = pre ++ frag := by
     rw [← List.length_append]; exact List.take_left' rfl
   obtain ⟨b, bs, rfl⟩ := List.exists_cons_of_ne_nil hi
-  have hb := hind b List.mem_cons_self
-  have hba : 'a' ≠ b := by rintro rfl; simp [isBlankTab] at hb
-  have hnp : ∀ (p : Str), p.head? = some 'a' → ∀ r : Str, hasPrefix (b :: bs ++ r) p = false :=
-    fun p hp r => hasPrefix_false_of_head _ p b 'a' rfl hp hba
-  have hdw : (b :: bs ++ frag).dropWhile isBlankTab = frag := by
-    rw [List.dropWhile_append_of_pos (by simpa using hind)]
+  have hb := hpre b List.mem_cons_self
+  have hba : 'a' ≠ b := by rintro rfl; simp [isAccountSkip] at hb
+  have h1 : hasPrefix (b :: bs ++ frag) directiveAccount = false :=
+    hasPrefix_false_of_head _ _ b 'a' rfl rfl hba
+  have h2 : hasPrefix (b :: bs ++ frag) directiveApplyAccount = false :=
+    hasPrefix_false_of_head _ _ b 'a' rfl rfl hba
+  have hdw : (b :: bs ++ frag).dropWhile isAccountSkip = frag := by
+    rw [List.dropWhile_append_of_pos (by simpa using hpre)]
     cases frag with
     | nil => rfl
     | cons f fs =>
       have := hfrag f (by simp)
       simp [this]
-  have h1 := hnp directiveAccount rfl
-  have h2 := hnp directiveApplyAccount rfl
+  have hstart : accountQueryStart (b :: bs ++ frag) = (b :: bs).length := by
+    simp only [accountQueryStart, h1, h2, Bool.false_eq_true, if_false, trimLeftP, hdw, List.length_append]
+    omega
   constructor
-  · simp only [extractQuery, htake]
-    rw [not_hasPrefix_cut _ _ (by simpa using h1 frag), not_hasPrefix_cut _ _ (by simpa using h2 frag)]
-    exact hdw
-  · simp only [editStart, htake]
-    have e1 : hasPrefix (b :: bs ++ frag ++ rest) directiveAccount = false := by
-      simpa [List.append_assoc] using h1 (frag ++ rest)
-    have e2 : hasPrefix (b :: bs ++ frag ++ rest) directiveApplyAccount = false := by
-      simpa [List.append_assoc] using h2 (frag ++ rest)
-    have e1' := h1 frag
-    have e2' := h2 frag
-    have hlen : (b :: bs).length + frag.length - frag.length = (b :: bs).length := by omega
-    cases fx <;>
-      simp only [e1, e2, e1', e2', Bool.false_eq_true, if_false, if_true, trimLeftP, hdw, hlen]
+  · simp only [extractQuery, htake, hstart]
+    exact List.drop_left
+  · simp only [editStart, htake, hstart]
 
-example : posting_fragment_partial true "    ".toList "assets:c".toList "  1 USD".toList (by decide) (by decide) (by decide)
-    = posting_fragment_partial true "    ".toList "assets:c".toList "  1 USD".toList (by decide) (by decide) (by decide) := rfl
+example : (posting_fragment "  * (".toList "ass".toList "  1 USD".toList (by decide) (by decide) (by decide)).1
+    = (posting_fragment "  * (".toList "ass".toList "  1 USD".toList (by decide) (by decide) (by decide)).1 := rfl
 
-example : hasPrefix "    a:b  1 U".toList fourBlanks = true ∧
-    determineTagContext "    a:b  1 U".toList (takeU16 "    a:b  1 U".toList 12) = .unknown := by decide
+/-- Transaction line without a code: after the date, one blank and any status marks / blanks
+    (`marks`), the payee query is the text typed behind them. -/
+theorem header_fragment (date marks frag rest p : Str) (hp : p = date ++ ' ' :: marks) (hd : ' ' ∉ date)
+    (hm : ∀ c ∈ marks, isPayeeSkip c = true)
+    (hf : ∀ c ∈ frag.head?, isPayeeSkip c = false ∧ c ≠ '(') :
+    extractQuery .payee (p ++ frag ++ rest) (p.length + frag.length) = frag ∧
+    editStart .payee (p ++ frag ++ rest) (p.length + frag.length) = some p.length := by
+  have hpf : p ++ frag = date ++ ' ' :: (marks ++ frag) := by rw [hp]; simp
+  have hidx := indexOf_append_cons ' ' date (marks ++ frag) hd
+  have hdrop : (date ++ ' ' :: (marks ++ frag)).drop (date.length + 1) = marks ++ frag := by
+    have : date ++ ' ' :: (marks ++ frag) = (date ++ [' ']) ++ (marks ++ frag) := by simp
+    rw [this]; exact List.drop_left' (by simp)
+  have hdw := dropWhile_append_frag isPayeeSkip marks frag hm (fun c hc => (hf c hc).1)
+  have hsk : skipCode frag = frag := skipCode_id frag (fun c hc => (hf c hc).2)
+  have hstart : payeeQueryStart (p ++ frag) = p.length := by
+    have : payeeQueryStart (p ++ frag) = (p ++ frag).length - frag.length := by
+      rw [hpf]
+      simp only [payeeQueryStart, hidx, hdrop, trimLeftP, hdw, hsk]
+    rw [this, length_sub_frag]
+  constructor
+  · simp only [extractQuery, take_pre_frag, hstart]
+    exact List.drop_left
+  · simp only [editStart, take_pre_frag, hstart]
 
-/-- `fragment-includes-mark`: that text includes a status mark or an opening parenthesis, which no
-    account name contains — typing `(ass` on a virtual posting offers nothing although
-    `assets:cash` exists, and the range covers the parenthesis. -/
-theorem fragment_includes_mark_counterexample :
-    let t : Table := { (default : Table) with accounts := ["assets:cash".toList] }
-    let r := complete goLower true t ⟨50, true⟩ "    (ass".toList 8 []
-    let r' := complete goLower true t ⟨50, true⟩ "    ass".toList 7 []
+/-- Transaction line with a code: after the date, status marks and a closed code `(body)`
+    followed by blanks, the payee query is the text typed behind them. -/
+theorem header_fragment_code (date marks body blanks frag rest p : Str)
+    (hp : p = date ++ ' ' :: marks ++ '(' :: body ++ ')' :: blanks) (hd : ' ' ∉ date)
+    (hm : ∀ c ∈ marks, isPayeeSkip c = true) (hb : ')' ∉ body) (hbl : ∀ c ∈ blanks, isBlank c = true)
+    (hf : ∀ c ∈ frag.head?, isBlank c = false) :
+    extractQuery .payee (p ++ frag ++ rest) (p.length + frag.length) = frag ∧
+    editStart .payee (p ++ frag ++ rest) (p.length + frag.length) = some p.length := by
+  have hpf : p ++ frag = date ++ ' ' :: (marks ++ (('(' :: body) ++ ')' :: (blanks ++ frag))) := by
+    rw [hp]; simp
+  have hidx := indexOf_append_cons ' ' date (marks ++ (('(' :: body) ++ ')' :: (blanks ++ frag))) hd
+  have hdrop : (date ++ ' ' :: (marks ++ (('(' :: body) ++ ')' :: (blanks ++ frag)))).drop (date.length + 1)
+      = marks ++ (('(' :: body) ++ ')' :: (blanks ++ frag)) := by
+    have : date ++ ' ' :: (marks ++ (('(' :: body) ++ ')' :: (blanks ++ frag)))
+        = (date ++ [' ']) ++ (marks ++ (('(' :: body) ++ ')' :: (blanks ++ frag))) := by simp
+    rw [this]; exact List.drop_left' (by simp)
+  have hdw : (marks ++ (('(' :: body) ++ ')' :: (blanks ++ frag))).dropWhile isPayeeSkip
+      = ('(' :: body) ++ ')' :: (blanks ++ frag) :=
+    dropWhile_append_frag isPayeeSkip marks _ hm (by intro c hc; simp at hc; subst hc; rfl)
+  have hclose : indexOf ')' (('(' :: body) ++ ')' :: (blanks ++ frag)) = some (body.length + 1) := by
+    have := indexOf_append_cons ')' ('(' :: body) (blanks ++ frag) (by simp [hb])
+    simpa using this
+  have hdw2 := dropWhile_append_frag isBlank blanks frag hbl hf
+  have hsk : skipCode (('(' :: body) ++ ')' :: (blanks ++ frag)) = frag := by
+    have hd2 : (('(' :: body) ++ ')' :: (blanks ++ frag)).drop (body.length + 1 + 1) = blanks ++ frag := by
+      have : ('(' :: body) ++ ')' :: (blanks ++ frag) = (('(' :: body) ++ [')']) ++ (blanks ++ frag) := by simp
+      rw [this]; exact List.drop_left' (by simp)
+    simp only [List.cons_append] at hclose hd2
+    simp only [skipCode, List.cons_append, trimLeftP, hclose, hd2, hdw2]
+  have hstart : payeeQueryStart (p ++ frag) = p.length := by
+    have : payeeQueryStart (p ++ frag) = (p ++ frag).length - frag.length := by
+      rw [hpf]
+      simp only [payeeQueryStart, hidx, hdrop, trimLeftP, hdw, hsk]
+    rw [this, length_sub_frag]
+  constructor
+  · simp only [extractQuery, take_pre_frag, hstart]
+    exact List.drop_left
+  · simp only [editStart, take_pre_frag, hstart]
+
+/-- Comment, first tag: after the semicolon and blanks the tag query is the text typed behind them
+    (no comma in it). -/
+theorem tag_fragment_first (pre blanks frag rest p : Str) (hp : p = pre ++ ';' :: blanks) (hs : ';' ∉ pre)
+    (hbl : ∀ c ∈ blanks, isBlankTab c = true) (hf : ∀ c ∈ frag.head?, isBlankTab c = false)
+    (hc : ',' ∉ frag) :
+    extractQuery .tagName (p ++ frag ++ rest) (p.length + frag.length) = frag ∧
+    editStart .tagName (p ++ frag ++ rest) (p.length + frag.length) = some p.length := by
+  have hpf : p ++ frag = pre ++ ';' :: (blanks ++ frag) := by rw [hp]; simp
+  have hidx := indexOf_append_cons ';' pre (blanks ++ frag) hs
+  have hnc : ∀ x ∈ ';' :: (blanks ++ frag), (x == ',') = false := by
+    intro x hx
+    rcases List.mem_cons.1 hx with rfl | hx
+    · rfl
+    · exact not_comma_of_blanks_frag blanks frag hbl hc x hx
+  have hlast := lastIndexP_append_of_not (· == ',') pre (';' :: (blanks ++ frag)) hnc
+  have hpart : tagPartStart (pre ++ ';' :: (blanks ++ frag)) = pre.length + 1 := by
+    simp only [tagPartStart, hidx, hlast]
+    cases hl : lastIndexP (· == ',') pre with
+    | none => rfl
+    | some c =>
+      have hlt := lastIndexP_lt _ _ _ hl
+      simp only []
+      rw [if_neg (Nat.not_le.2 (Nat.lt_succ_of_lt hlt))]
+  have hdrop : (pre ++ ';' :: (blanks ++ frag)).drop (pre.length + 1) = blanks ++ frag := by
+    have : pre ++ ';' :: (blanks ++ frag) = (pre ++ [';']) ++ (blanks ++ frag) := by simp
+    rw [this]; exact List.drop_left' (by simp)
+  have hdw := dropWhile_append_frag isBlankTab blanks frag hbl hf
+  have hstart : tagNameQueryStart (p ++ frag) = p.length := by
+    have : tagNameQueryStart (p ++ frag) = (p ++ frag).length - frag.length := by
+      rw [hpf]
+      simp only [tagNameQueryStart, hpart, hdrop, trimLeftP, hdw]
+    rw [this, length_sub_frag]
+  constructor
+  · simp only [extractQuery, take_pre_frag, hstart]
+    exact List.drop_left
+  · simp only [editStart, take_pre_frag, hstart]
+
+/-- Comment, a further tag: after the last comma of the comment and blanks. -/
+theorem tag_fragment_after_comma (pre mid blanks frag rest p : Str)
+    (hp : p = pre ++ ';' :: mid ++ ',' :: blanks) (hs : ';' ∉ pre)
+    (hbl : ∀ c ∈ blanks, isBlankTab c = true) (hf : ∀ c ∈ frag.head?, isBlankTab c = false)
+    (hc : ',' ∉ frag) :
+    extractQuery .tagName (p ++ frag ++ rest) (p.length + frag.length) = frag ∧
+    editStart .tagName (p ++ frag ++ rest) (p.length + frag.length) = some p.length := by
+  have hpf : p ++ frag = pre ++ ';' :: (mid ++ ',' :: (blanks ++ frag)) := by rw [hp]; simp
+  have hpf2 : pre ++ ';' :: (mid ++ ',' :: (blanks ++ frag)) = (pre ++ ';' :: mid) ++ ',' :: (blanks ++ frag) := by
+    simp
+  have hidx := indexOf_append_cons ';' pre (mid ++ ',' :: (blanks ++ frag)) hs
+  have hnc := not_comma_of_blanks_frag blanks frag hbl hc
+  have hlast : lastIndexP (· == ',') (pre ++ ';' :: (mid ++ ',' :: (blanks ++ frag))) = some (pre.length + 1 + mid.length) := by
+    rw [hpf2, lastIndexP_append_cons (· == ',') (pre ++ ';' :: mid) (blanks ++ frag) ',' rfl hnc]
+    simp only [List.length_append, List.length_cons]
+    congr 1; omega
+  have hpart : tagPartStart (pre ++ ';' :: (mid ++ ',' :: (blanks ++ frag))) = pre.length + 1 + mid.length + 1 := by
+    simp only [tagPartStart, hidx, hlast]
+    rw [if_pos (Nat.le_add_right _ _)]
+  have hdrop : (pre ++ ';' :: (mid ++ ',' :: (blanks ++ frag))).drop (pre.length + 1 + mid.length + 1) = blanks ++ frag := by
+    have : pre ++ ';' :: (mid ++ ',' :: (blanks ++ frag)) = ((pre ++ ';' :: mid) ++ [',']) ++ (blanks ++ frag) := by simp
+    rw [this]; exact List.drop_left' (by simp; omega)
+  have hdw := dropWhile_append_frag isBlankTab blanks frag hbl hf
+  have hstart : tagNameQueryStart (p ++ frag) = p.length := by
+    have : tagNameQueryStart (p ++ frag) = (p ++ frag).length - frag.length := by
+      rw [hpf]
+      simp only [tagNameQueryStart, hpart, hdrop, trimLeftP, hdw]
+    rw [this, length_sub_frag]
+  constructor
+  · simp only [extractQuery, take_pre_frag, hstart]
+    exact List.drop_left
+  · simp only [editStart, take_pre_frag, hstart]
+
+/-- Non-vacuity of the fragment theorems on the witnesses of the finding. -/
+example :
+    extractQuery .payee "2024-01-02 * (123) sho".toList 22 = "sho".toList ∧
+    extractQuery .tagName "    a:b  1,5 USD ; cat:1, do".toList 28 = "do".toList ∧
+    extractQuery .account "\t! [ass".toList 7 = "ass".toList := by
+  decide +kernel
+
+/-- `fragment-includes-mark` (repaired): before the repair the text after the indent / the date was
+    the fragment — typing `(ass` on a virtual posting offered nothing although `assets:cash`
+    exists, the range covered the parenthesis; a transaction code was part of the payee query. -/
+theorem pinned_fragment_includes_mark_counterexample :
+    let t : Table := { (default : Table) with accounts := ["assets:cash".toList], payees := ["shop".toList] }
+    let r := Pinned.complete goLower true t ⟨50, true⟩ "    (ass".toList 8 []
+    let r' := complete goLower t ⟨50, true⟩ "    (ass".toList 8 []
+    let h := Pinned.complete goLower true t ⟨50, true⟩ "2024-01-02 (123) sho".toList 20 []
+    let h' := complete goLower t ⟨50, true⟩ "2024-01-02 (123) sho".toList 20 []
     r.ctx = .account ∧ r.query = "(ass".toList ∧ r.range = some (4, 8) ∧ r.items = [] ∧
     prefixCI goLower "ass".toList "assets:cash".toList = true ∧
-    r'.items.map (·.label) = ["assets:cash".toList] := by
+    r'.query = "ass".toList ∧ r'.range = some (5, 8) ∧ r'.items.map (·.label) = ["assets:cash".toList] ∧
+    h.query = "(123) sho".toList ∧ h.items = [] ∧
+    h'.query = "sho".toList ∧ h'.range = some (17, 20) ∧ h'.items.map (·.label) = ["shop".toList] := by
   decide +kernel
 
-/-- `tag-fragment-ignored`: in a comment every tag name is offered whatever has been typed, and
-    without an edit range. -/
-theorem tag_fragment_ignored_counterexample :
+/-- `tag-fragment-ignored` (repaired): before the repair every tag name was offered in a comment
+    whatever had been typed, and without an edit range. -/
+theorem pinned_tag_fragment_ignored_counterexample :
     let t : Table := { (default : Table) with tags := ["cat".toList, "dog".toList] }
-    let r := complete goLower true t ⟨50, true⟩ "    ; ca".toList 8 []
+    let r := Pinned.complete goLower true t ⟨50, true⟩ "    ; ca".toList 8 []
+    let r' := complete goLower t ⟨50, true⟩ "    ; ca".toList 8 []
     r.ctx = .tagName ∧ r.query = [] ∧ r.range = none ∧
     r.items.map (·.label) = ["cat".toList, "dog".toList] ∧
-    matchesQ goLower true "ca".toList "dog".toList = false := by
+    matchesQ goLower true "ca".toList "dog".toList = false ∧
+    r'.ctx = .tagName ∧ r'.query = "ca".toList ∧ r'.range = some (6, 8) ∧
+    r'.items.map (·.label) = ["cat".toList] ∧ newText .tagName "cat".toList = "cat:".toList := by
   decide +kernel
 
-/-- `short-indent`: a line indented by fewer than four blanks is not taken for a posting. -/
-theorem short_indent_counterexample :
-    determineContext "  assets:c".toList 10 [] = .date ∧
-    determineContext "    assets:c".toList 12 [] = .account := by
+/-! ## posting_context -/
+
+/-- `short-indent` (repaired): before the repair a line indented by fewer than four blanks was not
+    taken for a posting. -/
+theorem pinned_short_indent_counterexample :
+    Pinned.determineContext "  assets:c".toList 10 [] = .date ∧
+    Pinned.determineContext "    assets:c".toList 12 [] = .account ∧
+    determineContext "  assets:c".toList 10 [] = .account ∧
+    determineContext " assets:c".toList 9 [] = .account := by
   decide +kernel
 
-/-- A line that starts with four blanks or a tab and has no `;` before the cursor is completed as
-    a posting (account or commodity context) on an invoked request. -/
-theorem posting_context_partial (line : Str) (ch : Nat)
-    (hind : hasPrefix line fourBlanks = true ∨ hasPrefix line ['\t'] = true)
+/-- `status-mark-separator` (repaired): before the repair the blanks between the status mark of a
+    posting and its account were taken for the separator in front of the amount, and commodities
+    were offered inside the account name. -/
+theorem pinned_status_mark_separator_counterexample :
+    Pinned.determineContext "    !  a:big box".toList 13 [] = .commodity ∧
+    determineContext "    !  a:big box".toList 13 [] = .account ∧
+    extractQuery .account "    !  a:big box".toList 13 = "a:big ".toList ∧
+    determineContext "    !  a:big box  1 U".toList 21 [] = .commodity ∧
+    extractQuery .commodity "    !  a:big box  1 U".toList 21 = "U".toList := by
+  decide +kernel
+
+/-- `posting_context`: a line that starts with a blank or a tab (an indent of any width ≥ 1) and
+    has no `;` before the cursor is completed as a posting (account or commodity context) on an
+    invoked request. -/
+theorem posting_context (line : Str) (ch : Nat)
+    (hind : line.head? = some ' ' ∨ line.head? = some '\t')
     (hsemi : determineTagContext line (takeU16 line ch) = .unknown) :
     determineContext line ch [] = .account ∨ determineContext line ch [] = .commodity := by
   have hhead : ∃ x, line.head? = some x ∧ 'a' ≠ x ∧ 'c' ≠ x := by
-    cases line with
-    | nil => rcases hind with h | h <;> simp [hasPrefix, fourBlanks] at h
-    | cons x xs =>
-      refine ⟨x, rfl, ?_⟩
-      rcases hind with h | h <;> simp only [hasPrefix, fourBlanks, List.isPrefixOf_cons_cons,
-        Bool.and_eq_true, beq_iff_eq] at h <;> rw [← h.1] <;> decide
+    rcases hind with h | h <;> exact ⟨_, h, by decide, by decide⟩
   obtain ⟨x, hx, hxa, hxc⟩ := hhead
   have hne : line ≠ [] := by rintro rfl; simp at hx
   have h1 := hasPrefix_false_of_head line directiveAccount x 'a' hx rfl hxa
   have h2 := hasPrefix_false_of_head line directiveCommodity x 'c' hx rfl hxc
   have h3 := hasPrefix_false_of_head line directiveApplyAccount x 'a' hx rfl hxa
-  have h4 : (hasPrefix line fourBlanks || hasPrefix line ['\t']) = true := by
-    rcases hind with h | h <;> simp [h]
+  have h4 : (hasPrefix line [' '] || hasPrefix line ['\t']) = true := by
+    cases line with
+    | nil => exact absurd rfl hne
+    | cons y ys =>
+      simp only [List.head?_cons, Option.some.injEq] at hind
+      rcases hind with h | h <;> subst h <;> simp [hasPrefix]
   unfold determineContext
   simp only [hsemi, ne_eq, not_true_eq_false, if_false, hne, h1, h2, h3, h4, Bool.false_eq_true,
     reduceCtorEq, or_self, if_true]
@@ -518,5 +678,12 @@ theorem posting_context_partial (line : Str) (ch : Nat)
       · split
         · exact Or.inl rfl
         · exact Or.inr rfl
+
+/-- Non-vacuity: indents of one to eight blanks and a tab. -/
+example : (List.range 8).all (fun k =>
+      determineContext (List.replicate (k + 1) ' ' ++ "a:b  1 U".toList) (k + 1 + 8) [] == .commodity &&
+      determineContext (List.replicate (k + 1) ' ' ++ "a:b  1 U".toList) (k + 1 + 2) [] == .account) = true ∧
+    determineContext "\ta:b".toList 3 [] = .account := by
+  decide +kernel
 
 end HL.Props.C16
